@@ -55,7 +55,7 @@ class CacheRun(object):
     self.r_ops = r_ops
     self.w_ops = w_ops
     self.ev = []
-    self.files = files if files is not None else mods.files
+    self.files = files if files is not None else (() if cfg.get('coarse') else mods.files)
     self.opcodes = opcodes
 
   # ---- set-up of the real objects ------------------------------------------------
@@ -131,13 +131,21 @@ class CacheRun(object):
       self.ev.append(dict(k='obs', size=o[0], held=o[1], nkeys=o[2]))
 
   # ---- operations ----------------------------------------------------------------
+  # with cfg['frac'] the timestamp ids 1, 2, 3.. are the float timestamps 10.25, 10.5, 10.75, 11.0, ..:
+  # several in one whole second, still strictly increasing with the id
+  def tenc(self, ts):
+    return 10 + 0.25 * ts if self.cfg.get('frac') else ts
+
+  def tdec(self, x):
+    return int(round((x - 10) / 0.25)) if self.cfg.get('frac') else int(x)
+
   def do_store(self, t, op):
     _, mname, ts, vid = op
     self.ev.append(dict(k='call', t=t, op='store', m=self.mid(mname), ts=ts, id=vid))
     before = self.overflow
     exc = 0
     try:
-      self.cache.store(mname, (ts, enc(vid)))
+      self.cache.store(mname, (self.tenc(ts), enc(vid)))
     except Exception as e:
       exc = 1
       self.last_exc = repr(e)
@@ -153,7 +161,7 @@ class CacheRun(object):
       exc = 1
       self.last_exc = repr(e)
     self.ev.append(dict(k='ret', t=t, op='drain', exc=exc, sig=0, m=self.mid(metric),
-                        batch=[[int(a), dec(b)] for a, b in pts]))
+                        batch=[[self.tdec(a), dec(b)] for a, b in pts]))
     return metric
 
   def do_query(self, t, op):
@@ -169,7 +177,7 @@ class CacheRun(object):
     (n,) = struct.unpack('!L', raw[:4])
     resp = pickle.loads(raw[4:4 + n])
     self.ev.append(dict(k='ret', t=t, op='query', exc=0, sig=0, m=self.mid(mname),
-                        batch=[[int(a), dec(b)] for a, b in resp['datapoints']]))
+                        batch=[[self.tdec(a), dec(b)] for a, b in resp['datapoints']]))
 
   def r_body(self):
     for op in self.r_ops:
@@ -224,6 +232,19 @@ def enc(vid):
 
 def dec(v):
   return 1 if v == 0 else int(v)
+
+
+def band_workload(rng, nmetrics=3, nstores=23):
+  """stores of distinct (metric, timestamp) pairs, enough to fill a cache of MAX_CACHE_SIZE = 20 into the band between
+  the soft limit (MAX: 'nearly full', flow control pauses) and the hard limit (1.05 * MAX: refusals)"""
+  pairs = [(m, t) for t in range(1, 10) for m in range(1, nmetrics + 1)]
+  rng.shuffle(pairs)
+  ops = [('store', 'm%d' % m, t, i + 1) for i, (m, t) in enumerate(pairs[:nstores])]
+  # two re-stores of cached timestamps (accepted even when full)
+  for j in range(2):
+    m, t = pairs[rng.randrange(nstores)]
+    ops.append(('store', 'm%d' % m, t, nstores + j + 1))
+  return ops, [('drain',)] * 2
 
 
 def gen_workload(rng, nmetrics, nts, nstores, ndrains, nqueries=1, ticks=False):
@@ -351,6 +372,15 @@ def explore(ctx, mods, cfg, r_ops, w_ops, bound, nrandom, limit, sink, opcodes=F
       tr = run_plan(plan)
       n += 1
       sink(tr, dict(cfg=cfg, r_ops=r_ops, w_ops=w_ops, kind='window', plan=[[p[0], list(p[1])] for p in plan]))
+  # ... and the unlocked code FOLLOWING a release: the writer runs j more source lines after its k-th release
+  # (pop()'s bookkeeping after the lock is dropped), then the storing thread runs one whole operation
+  if not cfg.get('coarse'):
+    for k in range(1, min(len(w_ops) + 2, 5)):
+      for j in range(1, 7):
+        plan = [('W', ('kind', 'release', k)), ('W', ('kind', 'line', j)), ('R', ('kind', 'op', 1)), ('W', ('done',)), ('R', ('done',))]
+        tr = run_plan(plan)
+        n += 1
+        sink(tr, dict(cfg=cfg, r_ops=r_ops, w_ops=w_ops, kind='window', plan=[[p[0], list(p[1])] for p in plan]))
   return n, exhausted
 
 
@@ -425,7 +455,7 @@ def replay_behaviour(mods, beh, strategy, hard, lag, flow=False):
   def project():
     c = run.cache
     keyseq = tuple(run.mid(k) for k in c.keys())
-    pts = frozenset((run.mid(k), int(ts), dec(v)) for k, d in c.items() for ts, v in d.items())
+    pts = frozenset((run.mid(k), run.tdec(ts), dec(v)) for k, d in c.items() for ts, v in d.items())
     out = dict(keyseq=keyseq, pts=pts, size=c.size)
     if strategy == 'bucketmax':
       b = tuple(tuple(run.mid(x) for x in bk) for bk in c.strategy.buckets)
